@@ -140,6 +140,22 @@ func genExp(t *rapid.T) ExpCase {
 		c.Steps = append(c.Steps, st)
 		return c
 	}
+	if rapid.IntRange(0, 9).Draw(t, "scenario2") == 0 {
+		// built as well: the pieces of an expected message arrive in two
+		// different messages (the number with another letter, then the
+		// letter alone); no message matches
+		l := rapid.SampledFrom(letters).Draw(t, "sc2.l")
+		other := rapid.SampledFrom([]string{"X", "Y"}).Draw(t, "sc2.o")
+		st := ExpStep{Outputs: []ExpOutput{{Pattern: map[string]interface{}{"k": l, "n": "?n"}}}}
+		if rapid.Bool().Draw(t, "sc2.guard") {
+			st.Outputs[0].Guard = &sm.Prog{Ops: []sm.Op{{Op: "acceptIf", K: "?n", Rel: ">", V: 0.0}}}
+		}
+		js1, _ := json.Marshal(map[string]interface{}{"k": other, "n": float64(rapid.IntRange(1, 5).Draw(t, "sc2.n"))})
+		js2, _ := json.Marshal(map[string]interface{}{"k": l})
+		st.Lines = []string{string(js1), "not json", string(js2)}
+		c.Steps = append(c.Steps, st)
+		return c
+	}
 	ns := rapid.IntRange(1, 3).Draw(t, "steps")
 	// all expectations first, so that a step's lines can also serve a
 	// later step (left-overs in the stream)
@@ -187,7 +203,20 @@ func genExp(t *rapid.T) ExpCase {
 			case k == 6 && len(st.Lines) > 0:
 				st.Lines = append(st.Lines, st.Lines[rapid.IntRange(0, len(st.Lines)-1).Draw(t, ll+".dup")])
 			case k <= 7:
-				js, _ := json.Marshal(map[string]interface{}{"k": rapid.SampledFrom([]string{"A", "B", "C", "D", "E"}).Draw(t, ll+".nm"), "n": float64(rapid.IntRange(0, 5).Draw(t, ll+".nn"))})
+				near := map[string]interface{}{"k": rapid.SampledFrom([]string{"A", "B", "C", "D", "E"}).Draw(t, ll+".nm"), "n": float64(rapid.IntRange(0, 5).Draw(t, ll+".nn"))}
+				if rapid.IntRange(0, 2).Draw(t, ll+".half") == 0 {
+					// half a message: the letter of an expected output
+					// without the number its pattern asks for, or the
+					// number alone - no single message matches, even if
+					// the pieces taken together would
+					o := st.Outputs[rapid.IntRange(0, len(st.Outputs)-1).Draw(t, ll+".halfo")]
+					if pm, ok := o.Pattern.(map[string]interface{}); ok && rapid.Bool().Draw(t, ll+".halfk") {
+						near = map[string]interface{}{"k": pm["k"]}
+					} else {
+						delete(near, "k")
+					}
+				}
+				js, _ := json.Marshal(near)
 				st.Lines = append(st.Lines, string(js))
 			case k == 8 && si+1 < len(c.Steps):
 				later := c.Steps[rapid.IntRange(si+1, len(c.Steps)-1).Draw(t, ll+".later")]
